@@ -360,20 +360,24 @@ def check_list(seedt, ctx):
                 break
     except Exception as e:
         ctx.violation("remove_redundant_circuits_raises", case, {"exception": f"{type(e).__name__}: {e}"[:300]}, key="dedup_exc")
-    # CircuitStorage (direct comparison on unwrapped copies)
+    # CircuitStorage: default check (direct comparison on unwrapped copies), the isomorphism check, and comparison disabled
+    from graphiq.utils.circuit_comparison import circuit_is_isomorphic
     ctx.count("lists:storage")
     try:
-        st = CircuitStorage()
-        stored = []
-        for i, c in enumerate(circs):
-            if st.add_new_circuit(c):
-                stored.append(i)
-            else:
-                ctx.count("lists:dropped")
-                if not any(orc.equivalent(oplists[i], oplists[k]) for k in stored):
-                    ctx.violation("distinct_circuit_discarded", case, {"by": "CircuitStorage", "refused": i, "stored": stored}, key="dedup_drop:storage")
-                    break
-        if [id(c) for c in st.circuit_list] != [id(circs[i]) for i in stored]:
-            ctx.violation("storage_list_inconsistent", case, {}, key="dedup_storage_list")
+        for config, kw in (("default", {}), ("isomorphic", {"check_function": circuit_is_isomorphic}), ("disabled", {"disable_circuit_comparison": True})):
+            st = CircuitStorage(**kw)
+            stored = []
+            ctx.count("lists:storage_config:" + config)
+            for i, c in enumerate(circs):
+                if st.add_new_circuit(c):
+                    stored.append(i)
+                else:
+                    ctx.count("lists:dropped")
+                    same = orc.equivalent_up_to_renaming if config == "isomorphic" else orc.equivalent   # the isomorphism check identifies circuits up to a renaming of same-type registers
+                    if config == "disabled" or not any(same(oplists[i], oplists[k]) for k in stored):
+                        ctx.violation("distinct_circuit_discarded", case, {"by": f"CircuitStorage({config})", "refused": i, "stored": stored}, key="dedup_drop:storage:" + config)
+                        break
+            if [id(c) for c in st.circuit_list] != [id(circs[i]) for i in stored]:
+                ctx.violation("storage_list_inconsistent", case, {"config": config}, key="dedup_storage_list")
     except Exception as e:
         ctx.violation("CircuitStorage_raises", case, {"exception": f"{type(e).__name__}: {e}"[:300]}, key="dedup_exc:storage")
